@@ -592,7 +592,7 @@ func (m *monitor) wrap(idx int, n *GNode, layer string, p parsley.Parser) parsle
 	switch n.Op {
 	case "seq", "seqtry", "seqfoa", "many", "many1", "sepby", "sepby1", "sentence":
 		fresh = n.Arg != "single"
-	case "rune", "urune", "op", "int", "float", "str", "char", "bool", "nil", "word", "regexp", "dur":
+	case "rune", "urune", "unode", "op", "int", "float", "str", "char", "bool", "nil", "word", "regexp", "dur":
 		fresh = true // a terminal parser builds its node itself
 	}
 	if layer == "inner" {
